@@ -31,7 +31,9 @@ def make(rng, with_damage):
     for _ in range(n):
         k = rng.random()
         if k < 0.55:
-            kind = rng.choice(("defined", "defined", "unknown", "len255", "defmax", "steered"))
+            kind = rng.choice(("defined", "defined", "unknown", "len255", "defmax", "steered", "steered",
+                               rng.choice(("len256", "len509", "len510", "len511", "len512", "len767", "len1021",
+                                           "len1022", "len1023"))))
             fr, p, _ = streams.rand_frame(rng, kind)
             if with_damage and rng.random() < 0.2:
                 # equal-length frames of one fixed-size type, later given the SAME bogus trailer
@@ -183,6 +185,11 @@ def run_case(ctx, items, labelmsm, seekable=False):
         if not parsed:
             if any(m is not None for _, _, m in out):
                 ctx.violation("parsed-false-returns-object", f"setting {key}: a parsed object was returned", params)
+                return
+            if validate == 0 and got != refmap:
+                # validation off accepts wrong checksums whether or not the frames are parsed
+                ctx.violation("validate0-frames-differ", f"setting {key}: with validation off and parsing off "
+                              f"{len(got)} raw frames were returned, {len(refmap)} were sent", params)
                 return
             if not has_damage and got != refmap:
                 ctx.violation("parsed-false-frames-differ", f"setting {key}: raw sequence/offsets differ from parsing on: "
